@@ -1,15 +1,238 @@
 /-
-Driver.ListenSuite — suite `listen` (stub: replaced by the owner of the suite).
-Must define `listenLine : String → String` (case line ↦ model observation line) and
-`listenPred : String → String → String → String` (property id, case line, implementation
-observation line ↦ "ok" | "fail <reason>").
+Driver.ListenSuite — suite `listen`: concurrency mode through Model.ListenWorker,
+timing mode through Model.Listen driven by a timeline simulation (driver glue).
 -/
-import Driver.Sx
+import Driver.WireSuite
+import VarlinkVerif.Model.ListenWorker
+import VarlinkVerif.Model.Listen
+import VarlinkVerif.Pred.Listen
 
 namespace VV
+open Sx
 
-def listenLine (_line : String) : String := "(stub)"
+/-! ### concurrency mode -/
 
-def listenPred (_prop _caseLine _obsLine : String) : String := "fail stub-suite"
+structure ConcClient where
+  kind : String
+  chunks : List Bytes
+  dec : List (Bytes × Frame)
+
+structure ConcCase where
+  svc : Service
+  svcSx : Sx
+  clients : List ConcClient
+
+def parseConcClient : Sx → Option ConcClient
+  | .list [.atom "client", .atom kind, _, .list (.atom "chunks" :: cs), dec] => do
+    let cs ← cs.mapM asBytes
+    let dec ← parseDec dec
+    pure { kind, chunks := cs, dec }
+  | _ => none
+
+def parseConcCase : Sx → Option ConcCase
+  | .list [.atom "listen-conc", _, _, svc, .list (.atom "clients" :: cl)] => do
+    let s ← parseSvc svc
+    let cl ← cl.mapM parseConcClient
+    pure { svc := s, svcSx := svc, clients := cl }
+  | _ => none
+
+def upEcho (r : ConnResult) : Bytes :=
+  -- the fixture's upgraded handler is only invoked when there is something to read
+  if r.upgraded.isSome && !r.handedOver.isEmpty then r.handedOver else []
+
+def concClientObs (svc : Service) (cl : ConcClient) : Sx :=
+  let total := cl.chunks.flatten
+  let r := ListenWorker.run consts svc (decOf cl.dec) (if total.isEmpty then [] else [total])
+  let refStatus := match r.upgraded, r.closedByError with
+    | some _, _ => "up"
+    | none, true => "err"
+    | none, false => "eof"
+  let ref : Sx := .list [.atom "ref", .atom refStatus, .list (.atom "out" :: r.out.map ofReply),
+    bytesAtom (if r.upgraded.isSome then r.handedOver else [])]
+  .list [.atom "c", .atom "t", .list (.atom "out" :: r.out.map ofReply), bytesAtom (upEcho r), ref]
+
+def concLine (c : ConcCase) : Sx :=
+  .list (.atom "obs" :: c.clients.map (concClientObs c.svc))
+
+/-! ### timing mode: a timeline simulation that feeds Model.Listen -/
+
+def parseTimingCase : Sx → Option TimingCase
+  | .list [.atom "listen-timing", idle, stop, initial, max, .list (.atom "conns" :: cs)] => do
+    let idle ← asNat idle
+    let stopAt := asNat stop
+    let initial ← asNat initial
+    let max ← asNat max
+    let cs ← cs.mapM fun c => match c with
+      | Sx.list [Sx.atom "conn", a, h] => do
+        let a ← asNat a
+        let h ← asNat h
+        pure (a, h)
+      | _ => none
+    pure { idle, stopAt, initial, max, conns := cs }
+  | _ => none
+
+structure Sim where
+  t : Nat := 0
+  st : ListenSt
+  pending : List (Nat × Nat)     -- (arrival, hold) sorted by arrival
+  ends : List Nat := []          -- service end times of accepted connections
+  ambiguous : Bool := false
+
+def stopSetAt (c : TimingCase) (t : Nat) : Bool :=
+  match c.stopAt with
+  | some s => s ≤ t
+  | none => false
+
+/-- when does the connection accepted at `t` with client deadline `dl` end?  With all `max`
+    workers occupied it waits for the earliest one to finish. -/
+def serviceEnd (max : Nat) (ends : List Nat) (t dl : Nat) : Nat :=
+  let active := ends.filter (· > t)
+  if active.length ≥ max then
+    let sorted := active.mergeSort (· ≤ ·)
+    let free := sorted.getD (active.length - max) t
+    Nat.max dl free
+  else Nat.max dl t
+
+def simLoop (c : TimingCase) (cfg : ListenCfg) : Nat → Sim → Sim
+  | 0, s => s
+  | fuel + 1, s =>
+    if s.st.result != .running then s else
+    let w := waitTime cfg
+    match s.pending with
+    | (a, hold) :: rest =>
+      let ta := Nat.max a s.t
+      if w = 0 || ta < s.t + w then
+        let e := serviceEnd c.max s.ends ta (a + hold)
+        let amb := s.ambiguous || (w ≠ 0 && s.t + w - ta < 120)
+        let st' := Listen.step cfg s.st (.conn (stopSetAt c ta))
+        simLoop c cfg fuel { s with t := ta, st := st', pending := rest, ends := e :: s.ends, ambiguous := amb }
+      else
+        let tt := s.t + w
+        let busy := (s.ends.filter (· > tt)).length
+        let amb := s.ambiguous || s.ends.any (fun e => (e + 150 > tt && e < tt + 150)) ||
+          (match c.stopAt with | some sa => sa + 40 > tt && sa < tt + 40 | none => false)
+        let st' := Listen.step cfg s.st (.timeout (stopSetAt c tt) busy)
+        simLoop c cfg fuel { s with t := tt, st := st', ambiguous := amb }
+    | [] =>
+      if w = 0 then s   -- blocks in accept forever
+      else
+        let tt := s.t + w
+        let busy := (s.ends.filter (· > tt)).length
+        let amb := s.ambiguous || s.ends.any (fun e => (e + 150 > tt && e < tt + 150)) ||
+          (match c.stopAt with | some sa => sa + 40 > tt && sa < tt + 40 | none => false)
+        let st' := Listen.step cfg s.st (.timeout (stopSetAt c tt) busy)
+        simLoop c cfg fuel { s with t := tt, st := st', ambiguous := amb }
+
+structure TimingPrediction where
+  result : String
+  ret : Nat
+  ambiguous : Bool
+
+def predictTiming (c : TimingCase) : TimingPrediction :=
+  let cfg : ListenCfg := { idle := c.idle, hasStop := c.stopAt.isSome }
+  let pend := c.conns.mergeSort (fun a b => a.1 ≤ b.1)
+  let s := simLoop c cfg 2000 { st := Listen.init cfg (stopSetAt c 0), pending := pend }
+  let drainEnd := s.ends.foldl Nat.max s.t
+  match s.st.result with
+  | .okStopped => { result := "ok", ret := drainEnd, ambiguous := s.ambiguous }
+  | .errTimeout => { result := "timeout", ret := drainEnd, ambiguous := s.ambiguous }
+  | .running => { result := "running", ret := s.t, ambiguous := s.ambiguous }
+
+def timingLine (c : TimingCase) : Sx :=
+  let p := predictTiming c
+  .list [.atom "tpred", .atom p.result, .atom (toString p.ret), ofBool p.ambiguous]
+
+def listenLine (line : String) : String :=
+  match parse line with
+  | none => "(model-parse-error)"
+  | some sx =>
+    match parseConcCase sx with
+    | some c => render (concLine c)
+    | none =>
+      match parseTimingCase sx with
+      | some c => render (timingLine c)
+      | none => "(model-case-error)"
+
+/-! ### predicates -/
+
+def parseConnObs : Sx → Option ConnObs
+  | .list [.atom "c", closed, .list (.atom "out" :: out), up,
+           .list [.atom "ref", .atom rst, .list (.atom "out" :: rout), rup]] => do
+    let closed ← asOptBool closed
+    let (o, raw) := parseReplies out
+    let up ← asBytes up
+    let (ro, _) := parseReplies rout
+    let rup ← asBytes rup
+    pure { closed := closed.getD false, out := o, rawOut := raw, up, refStatus := rst, refOut := ro, refUp := rup }
+  | _ => none
+
+def clientTokens (cl : ConcClient) : List String :=
+  let fs := (frames cl.chunks.flatten).1.map (decOf cl.dec)
+  fs.filterMap fun f => match f with
+    | .req r => tokenOfJson r.parameters
+    | .bad => none
+
+def concPred (c : ConcCase) (obs : List Sx) : Verdict :=
+  let toks := c.clients.map clientTokens
+  let idx := List.range c.clients.length
+  firstSome <| idx.map fun i =>
+    match c.clients[i]?, obs[i]? with
+    | some cl, some o =>
+      match parseConnObs o with
+      | none => some "unparsable-connection-observation"
+      | some co =>
+        let others := (idx.filter (· != i)).flatMap fun j => toks.getD j []
+        P_C13_conn cl.kind others co
+    | _, _ => some "missing-connection-observation"
+
+def parseTimingObs : Sx → Option TimingObs
+  | .list (.atom "tobs" :: .atom res :: ret :: removed :: conns) => do
+    let ret ← asNat ret
+    let removed ← asOptBool removed
+    let conns ← conns.mapM fun k => match k with
+      | Sx.list [Sx.atom "c", a, f, cpl, e] => do
+        let a ← asNat a
+        let f ← asOptBool f
+        let cpl ← asOptBool cpl
+        let e ← asNat e
+        pure ({ accepted := a, gotFirst := f.getD false, complete := cpl.getD false, closed := e } : TimingConn)
+      | _ => none
+    pure { result := res, ret, removed := removed.getD false, conns }
+  | _ => none
+
+def timingTolerance : Nat := 350
+
+def timingPred (c : TimingCase) (o : TimingObs) : Verdict :=
+  match P_C15_timing c o with
+  | some r => some r
+  | none =>
+    -- model agreement (with tolerance); skipped when an event falls close to a decision point
+    let p := predictTiming c
+    if p.ambiguous then none
+    else if p.result != o.result then some ("model-disagrees:result-" ++ p.result ++ "-vs-" ++ o.result)
+    else if o.ret + timingTolerance < p.ret || p.ret + timingTolerance < o.ret then
+      some ("model-disagrees:return-time-" ++ toString p.ret ++ "-vs-" ++ toString o.ret)
+    else none
+
+def listenPred (prop : String) (caseLine obsLine : String) : String :=
+  let v : Verdict :=
+    match parse caseLine, parse obsLine with
+    | some cs, some os =>
+      match os with
+      | .list (.atom "panic" :: _) => some "panic"
+      | _ =>
+        match parseConcCase cs with
+        | some c =>
+          match os with
+          | .list (.atom "obs" :: items) => concPred c items
+          | _ => some "unparsable-observation"
+        | none =>
+          match parseTimingCase cs, parseTimingObs os with
+          | some c, some o => if prop == "C15" then timingPred c o else some "timing-case-for-another-property"
+          | _, _ => some "unparsable-case-or-observation"
+    | _, _ => some "unparsable-line"
+  match v with
+  | none => "ok"
+  | some r => "fail " ++ r
 
 end VV
